@@ -1,100 +1,83 @@
 import HabuVerif.Core.Solver
+import HabuVerif.Core.Inputs
+import HabuVerif.Gen.CharTable
 import HabuVerif.Dsl.Eval
 /-!
 # The shipped forms as a solver catalogue
 
 `mkCat year` packages a translated `YearDecl` as a `Cat String String String Val String`, the
-interface of the solver model (`Core/Solver.lean`) and of the metatheory (`Props/C01`, `C03`: they
-hold for EVERY `Cat`, hence for this one).  Names are `class[:instance].line`; the instance is a
-run-time parameter of every function.
+interface of the solver model (`Core/Solver.lean`) and of the metatheory (`Props/C01`, `C03`, …: they
+hold for EVERY `Cat` with `CatWF`, hence for this one: `Proofs/DslCatWF.lean`).  Names are
+`class[:instance].line`; the instance is a run-time parameter of every function.
 
-Input parsing (`Cat.parse`) is given here by a MINIMAL, ASCII-exact model of `habutax.inputs`
-(`parseInput`): non-ASCII text is accepted for `StringInput` and rejected (answer `none`, i.e.
-"invalid") for the numeric/boolean kinds, which is exact except for non-ASCII Unicode digits in
-`int()`/`float()`.  The exact, table-driven model for all of Unicode is `Core/Inputs.lean` (another
-component); the correspondence streams of this component only send ASCII input text.  Core only.
+Input parsing (`Cat.parse`) is `parseInput`: the model of `habutax.inputs` for ALL Unicode text of
+`Core/Inputs.lean` (`Inputs.valid` / `Inputs.value` over the character table generated from the
+running CPython, `Gen/CharTable.lean`; floats through `F64.ofDecimal`; the translator's regex AST
+is mapped onto `Regex.Re`).  The `real` stream's input-text cases (`real_stream.run_inputs`)
+exercise it through whole solves.  Core only.
 -/
 set_option autoImplicit false
 
 namespace HabuVerif.Dsl
 open HabuVerif
 
-/-! ## Regular expressions (for `RegexInput.valid`) -/
+/-! ## `Input.valid` / `Input.value` through the model of `habutax.inputs` (`Core/Inputs.lean`) -/
 
-def Re.hasUnsupported : Re → Bool
-  | .unsupported => true
-  | .seq a b => a.hasUnsupported || b.hasUnsupported
-  | .alt a b => a.hasUnsupported || b.hasUnsupported
-  | .rep a _ _ => a.hasUnsupported
-  | _ => false
+/-- binary64 as the float carrier of the input / field model -/
+def f64Ops : FloatOps F64 where
+  zero := F64.zero
+  ofLit := fun d => match d with
+    | .finite neg mant e => F64.ofDecimal neg mant e
+    | .inf neg => .inf neg
+    | .nan _ => .nan
+  isFinite := F64.isFinite
+  roundN := F64.roundN
+  fmt := fun x n => (F64.fmtFixed x n).toList
 
-def inRanges (rs : List (Nat × Nat)) (c : Char) : Bool :=
-  rs.any fun r => r.1 ≤ c.toNat && c.toNat ≤ r.2
+def Re.toRegex : Re → Regex.Re
+  | .eps => .eps
+  | .cls rs negated => .cls negated (rs.map fun r => (Char.ofNat r.1, Char.ofNat r.2))
+  | .seq a b => .cat a.toRegex b.toRegex
+  | .alt a b => .alt a.toRegex b.toRegex
+  | .rep a lo hi => .rep a.toRegex lo hi
+  | .bol => .bol
+  | .eol => .eol
+  | .unsupported => .empty
 
-/-- apply `f` between `lo` and `lo + extra` times (greedy order: more repetitions first);
-positions are pairs (at start?, remaining text) -/
-def repRems (f : Bool × List Char → List (Bool × List Char)) :
-    Nat → Nat → Bool × List Char → List (Bool × List Char)
-  | 0, 0, s => [s]
-  | 0, extra + 1, s => ((f s).filter (fun s' => s'.2.length < s.2.length)).flatMap (repRems f 0 extra) ++ [s]
-  | lo + 1, extra, s => (f s).flatMap (repRems f lo extra)
+def enumIndex (year : YearDecl) (e : String) : Nat :=
+  (year.enums.map (·.1)).findIdx (· == e)
 
-/-- all ways `r` can match a prefix: the remaining texts (with "still at the very start" flag) -/
-def Re.rems : Re → Bool × List Char → List (Bool × List Char)
-  | .eps, s => [s]
-  | .cls rs negated, (_, c :: cs) => if inRanges rs c != negated then [(false, cs)] else []
-  | .cls _ _, (_, []) => []
-  | .seq a b, s => (a.rems s).flatMap b.rems
-  | .alt a b, s => a.rems s ++ b.rems s
-  | .rep a lo hi, s =>
-    -- an unbounded repetition never needs more iterations than there are characters left
-    let extra := match hi with
-      | some h => h - lo
-      | none => s.2.length
-    repRems a.rems lo extra s
-  | .bol, s => if s.1 then [s] else []
-  | .eol, s => if s.2.isEmpty || s.2 == ['\n'] then [s] else []
-  | .unsupported, _ => []
-
-/-- `bool(re.match(r, text))` -/
-def Re.matches (r : Re) (text : String) : Bool := !(r.rems (true, text.toList)).isEmpty
-
-/-! ## `Input.valid` / `Input.value` -/
-
-def boolWordsTrue : List String := ["true", "yes", "y", "1", "on"]
-def boolWordsFalse : List String := ["false", "no", "n", "0", "off"]
+def InputKind.toSpec (year : YearDecl) : InputKind → Inputs.InputSpec
+  | .str => .str
+  | .bool => .bool
+  | .int => .int
+  | .float => .float
+  | .ssn => .ssn
+  | .enum e allowEmpty =>
+    .enum { ident := enumIndex year e,
+            members := ((year.enums.lookup e).getD []).map String.toList } allowEmpty
+  | .regex r => .regex r.toRegex
 
 /-- `some v` iff `valid(text)`, and then `v = value(text)` (what `InputStore.__getitem__` returns) -/
 def parseInput (year : YearDecl) (k : InputKind) (text : String) : Option Val :=
-  let s := Val.pyStrip text
-  match k with
-  | .str => some (.str s)
-  | .bool =>
-    (match Val.pyLower s with
-     | .ok l =>
-       if boolWordsTrue.contains l then some (.bool true)
-       else if boolWordsFalse.contains l then some (.bool false) else none
-     | .error _ => none)
-  | .int =>
-    if s.isEmpty then some (.int 0) else
-    (match Val.parseIntStr s with
-     | .ok i => some (.int i)
-     | .error _ => none)
-  | .float =>
-    if s.isEmpty then some (.float F64.zero) else
-    (match Val.parseFloatStr s with
-     | .ok x => if x.isFinite then some (.float x) else none
-     | .error _ => none)
-  | .ssn =>
-    let d := s.toList.filter (· != '-')
-    if d.length == 9 && d.all (fun c => '0' ≤ c ∧ c ≤ '9') then some (.str (String.ofList d)) else none
-  | .enum e allowEmpty =>
-    if s.isEmpty && allowEmpty then some .none
-    else
-      (match year.enums.lookup e with
-       | some ms => if ms.contains s then some (.enumv e s) else none
-       | none => none)
-  | .regex r => if r.matches s then some (.str s) else none
+  let sp := k.toSpec year
+  let T := PyStr.CharTable.cpython
+  if !Inputs.valid T f64Ops sp text.toList then none
+  else
+    match Inputs.value T f64Ops sp text.toList with
+    | .error _ => none
+    | .ok v =>
+      match v with
+      | .none => some .none
+      | .bool b => some (.bool b)
+      | .int i => some (.int i)
+      | .float x => some (.float x)
+      | .str s => some (.str (String.ofList s))
+      | .enumMember _ m =>
+        (match k with
+         | .enum e _ => some (.enumv e (String.ofList m))
+         | _ => none)
+      | _ => none
 
 /-! ## Names -/
 
@@ -126,21 +109,44 @@ def InstRule.accepts : InstRule → Option String → Bool
   | .oneOf is, some i => is.contains i
   | .oneOf _, none => false
 
-/-- class and instance of a form the catalogue can construct -/
-def YearDecl.resolveForm (y : YearDecl) (f : String) : Option (ClassDecl × Option String) :=
+/-- `"." not in name` -/
+def nameOk (s : String) : Bool := !s.toList.contains '.'
+
+/-- the assertions `"." not in name` of `Form.__init__`, `Field.__init__`, `Input.__init__`: a class
+that violates one cannot be instantiated -/
+def ClassDecl.namesOk (c : ClassDecl) : Bool :=
+  nameOk c.name && c.lines.all (fun d => nameOk d.name) && c.inputs.all (fun d => nameOk d.name)
+
+/-- The solver's `_form_map = {f.form_name: f for f in form_list}` (of two classes with the same
+name the LATER one wins), each class with the outcome of its naming assertions (computed once). -/
+def YearDecl.formMap (y : YearDecl) : List (String × ClassDecl × Bool) :=
+  y.classes.reverse.map fun c => (c.name, c, c.namesOk)
+
+/-- Class and instance of a form the catalogue can construct.  A form name containing a dot (it can
+only sit in the instance part, e.g. `w-2:1.5`) is rejected: in the real solver such a form makes
+every line name `form.line` split into three parts, and the request dies with a `ValueError` in
+`sort_keys` as soon as one of its lines is queued — an abort in both worlds (the model reports it
+as a constructor error, the exception class differs). -/
+def resolveIn (fm : List (String × ClassDecl × Bool)) (f : String) : Option (ClassDecl × Option String) :=
+  if !nameOk f then none else
   match nameAndInstance f with
   | none => none
   | some (cn, inst) =>
-    match y.findClass cn with
+    match fm.lookup cn with
     | none => none
-    | some c => if c.instRule.accepts inst then some (c, inst) else none
+    | some (c, ok) => if c.instRule.accepts inst && ok then some (c, inst) else none
 
-def mkCat (y : YearDecl) : Cat String String String Val String where
+def YearDecl.resolveForm (y : YearDecl) (f : String) : Option (ClassDecl × Option String) :=
+  resolveIn y.formMap f
+
+/-- the catalogue over a precomputed form map -/
+def mkCatOf (y : YearDecl) (fm : List (String × ClassDecl × Bool)) :
+    Cat String String String Val String where
   sem := fun n =>
     match splitName n with
     | none => .err PyErr.internal.code
     | some (f, k) =>
-      match y.resolveForm f with
+      match resolveIn fm f with
       | none => .err PyErr.internal.code
       | some (c, inst) =>
         match c.lines.find? (fun d => d.name == k) with
@@ -152,30 +158,33 @@ def mkCat (y : YearDecl) : Cat String String String Val String where
     match nameAndInstance f with
     | none => .ctorError             -- `RuntimeError('Unexpected form name …')`
     | some (cn, inst) =>
-      match y.findClass cn with
+      match fm.lookup cn with
       | none => .unsupported
-      | some c => if c.instRule.accepts inst then .ok else .ctorError
+      | some (c, ok) => if nameOk f && c.instRule.accepts inst && ok then .ok else .ctorError
   fields := fun f =>
-    match y.resolveForm f with
+    match resolveIn fm f with
     | none => []
     | some (c, _) => c.lines.map fun d => f ++ "." ++ d.name
   required := fun f =>
-    match y.resolveForm f with
+    match resolveIn fm f with
     | none => []
     | some (c, _) => (c.lines.filter (·.required)).map fun d => f ++ "." ++ d.name
   inputs := fun f =>
-    match y.resolveForm f with
+    match resolveIn fm f with
     | none => []
     | some (c, _) => c.inputs.map fun d => f ++ "." ++ d.name
   parse := fun x text =>
     match splitName x with
     | none => none
     | some (f, k) =>
-      match y.resolveForm f with
+      match resolveIn fm f with
       | none => none
       | some (c, _) =>
         match c.inputs.find? (fun d => d.name == k) with
         | none => none
         | some d => parseInput y d.kind text
+
+/-- the shipped forms of a year as a solver catalogue -/
+def mkCat (y : YearDecl) : Cat String String String Val String := mkCatOf y y.formMap
 
 end HabuVerif.Dsl
